@@ -232,9 +232,11 @@ def existence_check(C) -> None:
         ok = None
         if tgt is not None and cfg.dominates(decision, tgt):
             ok = True
-        elif call is not None:
-            a_defs = [M.stmt_of(x) for x in M.alias_sources()]
-            ok = all(not cfg.paths_avoiding(s, M.stmt_of(call), {decision}) for s in a_defs)
+        elif call is not None and cfg.dominates(decision, M.stmt_of(call)):
+            ok = True
+        elif tgt is not None and call is not None:
+            # labels are stored before the check: fine as long as the backend is not reached without it
+            ok = not cfg.paths_avoiding(tgt, M.stmt_of(call), {decision})
         if ok:
             C.ok(rule, first, "aliases are validated before labels are handed to the backend", decision, kind="dominance")
         elif ok is None:
@@ -254,7 +256,7 @@ def existence_check(C) -> None:
         for r in _walk_own(M.fn.body):
             if isinstance(r, ast.Raise):
                 around = [M.resolve(L.iter) for L in M.loops_around(r)] + [M.resolve(c[0]) for c in M.history_conds(r)] + ([M.resolve(r.exc)] if r.exc is not None else [])
-                if any(M.mentions_A(x) or _mentions_a_key(M, x) for x in around):
+                if any(M.mentions_A(x) or _mentions_a_key(M, x) or M.depends_on_aliases(x) for x in around):
                     unsure.append(("unknown", None, r, f"`{norm(r.exc, 60) if r.exc is not None else 'raise'}` depends on the aliases in a way that is not recognised as the existence check", False))
                     break
     if unsure:
@@ -340,11 +342,14 @@ def _analyse_raise(C, r: ast.Raise):
         if ue is not None:
             u_atoms[a] = ue
             continue
-        # `x is None` where x = next(<unknown names>, None)
-        if isinstance(e, ast.Compare) and len(e.ops) == 1 and isinstance(e.ops[0], ast.Is) and isinstance(e.left, ast.Name) and isinstance(e.comparators[0], ast.Constant) and e.comparators[0].value is None:
+        # `x is <default>` where x = next(<unknown names>, <default>)   (None or a sentinel)
+        if isinstance(e, ast.Compare) and len(e.ops) == 1 and isinstance(e.ops[0], ast.Is) and isinstance(e.left, ast.Name):
             v = M.single_value(e.left.id)
-            if isinstance(v, ast.Call) and isinstance(v.func, ast.Name) and v.func.id == "next" and len(v.args) == 2 and isinstance(v.args[1], ast.Constant) and v.args[1].value is None:
-                u = unknown_coll(M, M.resolve(v.args[0]))
+            if isinstance(v, ast.Call) and isinstance(v.func, ast.Name) and v.func.id == "next" and len(v.args) == 2 and norm(v.args[1]) == norm(e.comparators[0]):
+                src = M.resolve(v.args[0])
+                if isinstance(src, ast.Call) and isinstance(src.func, ast.Name) and src.func.id == "iter" and len(src.args) == 1:
+                    src = src.args[0]
+                u = unknown_coll(M, src)
                 if u is not None:
                     u_atoms[a] = (u, False)
                     continue
